@@ -96,7 +96,7 @@ class TplGen:
                       comments=True, raw=True, decorators=False, inline=False, subexpr=True, literals=True,
                       html=True, locals=True, updirs=True, params=True, chains=True, missing=0.15,
                       maxdepth=4, text=None, crlf=False, partial_blocks=False, hash=True, dynamic_partial=False,
-                      lookup=True, cmp_helpers=True)
+                      lookup=True, cmp_helpers=True, root=True)
         self.o.update(o)
         self.scopes = [Scope(data)]
         self.n_tags = 0
@@ -136,7 +136,7 @@ class TplGen:
                 if r.random() < 0.25 and self.o['updirs']:
                     p = '@../' + p[1:]
                 return p
-        if roll < 0.35:
+        if roll < 0.35 and self.o['root']:
             # @root path
             ps = walk_paths(self.data, 2)
             segs, _ = r.choice(ps)
